@@ -1,8 +1,29 @@
-//! C19 support: the environment RNG and the contract-level component type.
+//! C19 support: the environment RNG and the harness component type `K32`.
 //!
 //! `AnyRng` is the random number generator of every C19 harness: each word it hands out is a fresh `kani::any()`, so one
 //! symbolic execution covers every RNG stream (every seed of every generator) at once.
-use rand::RngCore;
+//!
+//! `K32(f32)` is an `f32` component seen through `palette::num`: `+ - * /`, comparisons, constants and angle
+//! normalisation are the plain IEEE `f32` operations (the same expressions as palette's own `f32` impls), so palette's
+//! generic sampler code runs on real floats. Three things differ from plain `f32`, all of them environment contracts:
+//!
+//! * `Distribution<K32> for Standard` draws through rand's real `f32` code (`K32(rng.gen::<f32>())`).
+//! * `SampleUniform for K32` is rand's *documented contract* instead of rand's `UniformFloat` (whose constructor shrinks its
+//!   scale one ulp per loop iteration - up to 2^23 iterations for narrow ranges, out of reach of bounded unwinding -
+//!   and whose `sample` is a symbolic x symbolic multiply): `Uniform::new(lo, hi)` panics unless `lo < hi`
+//!   (`new_inclusive`: `lo <= hi`), `sample` returns a nondeterministic value `v` with `lo <= v < hi` (`lo <= v <= hi`).
+//!   Every conforming implementation and every RNG stream is covered at once.
+//! * `cbrt` (no usable CBMC model) is nondeterministic within its range contract `0 <= x <= 1 => 0 <= cbrt(x) <= 1`,
+//!   `x >= 0 => cbrt(x) >= 0`. With `abstract_powers(true)` the pairs `powi(2)`/`x * x`/`sqrt` and `powi(3)`/`cbrt`
+//!   become an *arbitrary strictly increasing function on [0, inf) that maps [0, 1] into [0, 1], and its inverse* (every such
+//!   pair at once: the real-number square/cube and root are one of them). That is exactly what range containment of the
+//!   cylinder and cone samplers rests on (they sample between the squared / cubed ends and take the root); the
+//!   floating-point rounding of `x * x * x` and of libm's `cbrt` is outside this contract (Engine S covers the real-valued
+//!   statement, the rounding is not part of C19's claim).
+use core::ops::{Add, AddAssign, Div, Mul, Neg, Sub, SubAssign};
+use rand::distributions::uniform::{SampleBorrow, SampleUniform, UniformSampler};
+use rand::distributions::{Distribution, Standard};
+use rand::{Rng, RngCore};
 
 /// Environment stub for the random number generator: every word is nondeterministic.
 pub struct AnyRng;
@@ -23,4 +44,368 @@ impl RngCore for AnyRng {
         self.fill_bytes(dest);
         Ok(())
     }
+}
+
+#[derive(Clone, Copy, PartialEq, PartialOrd, Debug)]
+pub struct K32(pub f32);
+
+// ---- abstract power / root pairs -------------------------------------------------------------------------------------
+
+const NPOW: usize = 4;
+static mut ABSTRACT: bool = false;
+static mut POW_N: usize = 0;
+static mut POW_X: [f32; NPOW] = [0.0; NPOW];
+static mut POW_E: [i32; NPOW] = [0; NPOW];
+static mut POW_R: [f32; NPOW] = [0.0; NPOW];
+
+/// Switches `x * x`, `powi(2|3)`, `sqrt` and `cbrt` of `K32` to the abstract strictly increasing function / inverse pairs.
+pub fn abstract_powers(on: bool) {
+    unsafe {
+        ABSTRACT = on;
+    }
+}
+
+fn is_abstract() -> bool {
+    unsafe { ABSTRACT }
+}
+
+/// `x -> x^e` as an arbitrary strictly increasing function on [0, inf) with f(0) = 0, f(1) = 1 (so [0,1] -> [0,1]); a
+/// function: the same argument gives the same result. Arguments below 0 are outside the contract (arbitrary result).
+fn abs_pow(x: f32, e: i32) -> f32 {
+    unsafe {
+        let n = POW_N;
+        let r: f32 = kani::any();
+        kani::assume(r.is_finite());
+        if x >= 0.0 {
+            kani::assume(r >= 0.0);
+            kani::assume((x == 0.0) == (r == 0.0));
+            kani::assume((x < 1.0) == (r < 1.0));
+            kani::assume((x == 1.0) == (r == 1.0));
+        }
+        let mut i = 0;
+        while i < NPOW {
+            if i < n && POW_E[i] == e && POW_X[i] >= 0.0 && x >= 0.0 {
+                kani::assume((x < POW_X[i]) == (r < POW_R[i]));
+                kani::assume((x == POW_X[i]) == (r == POW_R[i]));
+            }
+            i += 1;
+        }
+        assert!(n < NPOW, "K32 power table full");
+        POW_X[n] = x;
+        POW_E[n] = e;
+        POW_R[n] = r;
+        POW_N = n + 1;
+        r
+    }
+}
+
+/// The inverse of `abs_pow(_, e)`: increasing, and exact at every recorded point.
+fn abs_root(x: f32, e: i32) -> f32 {
+    unsafe {
+        let n = POW_N;
+        let r: f32 = kani::any();
+        kani::assume(r.is_finite());
+        if x >= 0.0 {
+            kani::assume(r >= 0.0);
+            kani::assume((x == 0.0) == (r == 0.0));
+            kani::assume((x < 1.0) == (r < 1.0));
+            kani::assume((x == 1.0) == (r == 1.0));
+        }
+        let mut i = 0;
+        while i < NPOW {
+            if i < n && POW_E[i] == e && POW_X[i] >= 0.0 && x >= 0.0 {
+                kani::assume((x < POW_R[i]) == (r < POW_X[i]));
+                kani::assume((x == POW_R[i]) == (r == POW_X[i]));
+            }
+            i += 1;
+        }
+        r
+    }
+}
+
+// ---- palette::num ------------------------------------------------------------------------------------------------------
+
+impl palette::num::Real for K32 {
+    fn from_f64(n: f64) -> Self {
+        K32(n as f32)
+    }
+}
+impl palette::num::Zero for K32 {
+    fn zero() -> Self {
+        K32(0.0)
+    }
+}
+impl palette::num::One for K32 {
+    fn one() -> Self {
+        K32(1.0)
+    }
+}
+impl Add for K32 {
+    type Output = K32;
+    fn add(self, o: K32) -> K32 {
+        K32(self.0 + o.0)
+    }
+}
+impl Sub for K32 {
+    type Output = K32;
+    fn sub(self, o: K32) -> K32 {
+        K32(self.0 - o.0)
+    }
+}
+impl Mul for K32 {
+    type Output = K32;
+    fn mul(self, o: K32) -> K32 {
+        if is_abstract() && self.0.to_bits() == o.0.to_bits() {
+            K32(abs_pow(self.0, 2))
+        } else {
+            K32(self.0 * o.0)
+        }
+    }
+}
+impl Div for K32 {
+    type Output = K32;
+    fn div(self, o: K32) -> K32 {
+        K32(self.0 / o.0)
+    }
+}
+impl Neg for K32 {
+    type Output = K32;
+    fn neg(self) -> K32 {
+        K32(-self.0)
+    }
+}
+impl<'a> Add<&'a K32> for K32 {
+    type Output = K32;
+    fn add(self, o: &'a K32) -> K32 {
+        self + *o
+    }
+}
+impl<'a> Sub<&'a K32> for K32 {
+    type Output = K32;
+    fn sub(self, o: &'a K32) -> K32 {
+        self - *o
+    }
+}
+impl<'a> Mul<&'a K32> for K32 {
+    type Output = K32;
+    fn mul(self, o: &'a K32) -> K32 {
+        self * *o
+    }
+}
+impl<'a> Div<&'a K32> for K32 {
+    type Output = K32;
+    fn div(self, o: &'a K32) -> K32 {
+        self / *o
+    }
+}
+impl AddAssign for K32 {
+    fn add_assign(&mut self, o: K32) {
+        *self = *self + o;
+    }
+}
+impl SubAssign for K32 {
+    fn sub_assign(&mut self, o: K32) {
+        *self = *self - o;
+    }
+}
+impl palette::bool_mask::HasBoolMask for K32 {
+    type Mask = bool;
+}
+impl palette::num::PartialCmp for K32 {
+    fn lt(&self, o: &K32) -> bool {
+        self.0 < o.0
+    }
+    fn lt_eq(&self, o: &K32) -> bool {
+        self.0 <= o.0
+    }
+    fn eq(&self, o: &K32) -> bool {
+        self.0 == o.0
+    }
+    fn neq(&self, o: &K32) -> bool {
+        self.0 != o.0
+    }
+    fn gt_eq(&self, o: &K32) -> bool {
+        self.0 >= o.0
+    }
+    fn gt(&self, o: &K32) -> bool {
+        self.0 > o.0
+    }
+}
+impl palette::num::MinMax for K32 {
+    fn min(self, o: K32) -> K32 {
+        K32(f32::min(self.0, o.0))
+    }
+    fn max(self, o: K32) -> K32 {
+        K32(f32::max(self.0, o.0))
+    }
+    fn min_max(self, o: K32) -> (K32, K32) {
+        if self.0 > o.0 {
+            (o, self)
+        } else {
+            (self, o)
+        }
+    }
+}
+impl palette::num::IsValidDivisor for K32 {
+    fn is_valid_divisor(&self) -> bool {
+        self.0.is_normal()
+    }
+}
+impl palette::num::Sqrt for K32 {
+    fn sqrt(self) -> K32 {
+        if is_abstract() {
+            K32(abs_root(self.0, 2))
+        } else {
+            K32(self.0.sqrt())
+        }
+    }
+}
+impl palette::num::Cbrt for K32 {
+    fn cbrt(self) -> K32 {
+        if is_abstract() {
+            K32(abs_root(self.0, 3))
+        } else {
+            let r: f32 = kani::any();
+            kani::assume(r.is_finite());
+            if self.0 >= 0.0 {
+                kani::assume(r >= 0.0);
+                if self.0 <= 1.0 {
+                    kani::assume(r <= 1.0);
+                }
+            }
+            K32(r)
+        }
+    }
+}
+impl palette::num::Powi for K32 {
+    fn powi(self, e: i32) -> K32 {
+        if is_abstract() {
+            K32(abs_pow(self.0, e))
+        } else {
+            let mut acc = 1.0f32;
+            let mut i = 0;
+            while i < e {
+                acc *= self.0;
+                i += 1;
+            }
+            K32(acc)
+        }
+    }
+}
+impl palette::angle::FullRotation for K32 {
+    fn full_rotation() -> K32 {
+        K32(360.0)
+    }
+}
+impl palette::angle::HalfRotation for K32 {
+    fn half_rotation() -> K32 {
+        K32(180.0)
+    }
+}
+impl palette::angle::RealAngle for K32 {
+    fn radians_to_degrees(self) -> K32 {
+        K32(self.0.to_degrees())
+    }
+    fn degrees_to_radians(self) -> K32 {
+        K32(self.0.to_radians())
+    }
+}
+impl palette::angle::UnsignedAngle for K32 {
+    fn normalize_unsigned_angle(self) -> K32 {
+        K32(palette::angle::UnsignedAngle::normalize_unsigned_angle(self.0))
+    }
+}
+impl palette::angle::SignedAngle for K32 {
+    fn normalize_signed_angle(self) -> K32 {
+        K32(palette::angle::SignedAngle::normalize_signed_angle(self.0))
+    }
+}
+
+// ---- rand ----------------------------------------------------------------------------------------------------------------
+
+impl Distribution<K32> for Standard {
+    fn sample<R: Rng + ?Sized>(&self, rng: &mut R) -> K32 {
+        K32(rng.gen::<f32>())
+    }
+}
+
+/// rand's documented `Uniform` contract for a float type (see the module doc).
+#[derive(Clone, Copy, Debug)]
+pub struct UniformK32 {
+    low: f32,
+    high: f32,
+    inclusive: bool,
+}
+
+impl SampleUniform for K32 {
+    type Sampler = UniformK32;
+}
+
+impl UniformSampler for UniformK32 {
+    type X = K32;
+
+    fn new<B1, B2>(low_b: B1, high_b: B2) -> Self
+    where
+        B1: SampleBorrow<K32> + Sized,
+        B2: SampleBorrow<K32> + Sized,
+    {
+        let (low, high) = (low_b.borrow().0, high_b.borrow().0);
+        assert!(low < high, "Uniform::new called with `low >= high`");
+        UniformK32 { low, high, inclusive: false }
+    }
+
+    fn new_inclusive<B1, B2>(low_b: B1, high_b: B2) -> Self
+    where
+        B1: SampleBorrow<K32> + Sized,
+        B2: SampleBorrow<K32> + Sized,
+    {
+        let (low, high) = (low_b.borrow().0, high_b.borrow().0);
+        assert!(low <= high, "Uniform::new_inclusive called with `low > high`");
+        UniformK32 { low, high, inclusive: true }
+    }
+
+    fn sample<R: Rng + ?Sized>(&self, _rng: &mut R) -> K32 {
+        let v: f32 = kani::any();
+        kani::assume(self.low <= v);
+        kani::assume(if self.inclusive { v <= self.high } else { v < self.high });
+        K32(v)
+    }
+}
+
+// ---- hue arcs --------------------------------------------------------------------------------------------------------
+
+/// Hue positions are compared modulo 360 up to the rounding of palette's own normalisation of the ends and of the sample
+/// (C11: `into_positive_degrees` is exact to within 2 ulp of max(|x|, 360); |x| <= 720 here): 2 * 2^-14 degrees.
+pub const ARC_TOL: f64 = 1.25e-4;
+
+/// `x mod 360` for `-720 <= x < 1080`, in f64 (exact up to 2^-44 for f32 inputs of this size).
+pub fn wrap360(x: f64) -> f64 {
+    let mut x = x;
+    if x < 0.0 {
+        x += 360.0;
+    }
+    if x < 0.0 {
+        x += 360.0;
+    }
+    if x >= 360.0 {
+        x -= 360.0;
+    }
+    if x >= 360.0 {
+        x -= 360.0;
+    }
+    x
+}
+
+/// The hue `sample` (positive degrees in [0, 360]) lies on the arc that runs in the direction of increasing angle from
+/// the hue `low` to the hue `high` (raw degrees in [-360, 720], `low <= high`). Ends that are the same hue: the whole
+/// circle when `low < high` (one or more full turns), the single point when `low == high`.
+pub fn on_arc(low: f32, high: f32, sample: f32) -> bool {
+    let a = wrap360(low as f64);
+    let b = wrap360(high as f64);
+    let span = wrap360(b - a);
+    if span == 0.0 && low < high {
+        return true;
+    }
+    let t = wrap360(sample as f64 - a);
+    t <= span + ARC_TOL || t >= 360.0 - ARC_TOL
 }
